@@ -487,8 +487,8 @@ func (mw *msgWriter) writeHeader(key Header, values ...string) int {
 	buffer.WriteString(string(key))
 	charLength -= len(key)
 	if len(values) == 0 {
-		buffer.WriteString(":\r\n")
-		return lines + 1
+		// A header without values is omitted, hence no line has been written for it
+		return 0
 	}
 	buffer.WriteString(": ")
 	charLength -= 2
